@@ -582,6 +582,11 @@ func (op *ShellOperator) taskHandleHookRun(t task.Task) queue.TaskResult {
 		if shouldCombine {
 			stopCombineFn := func(tsk task.Task) bool {
 				next := task_metadata.HookMetadataAccessor(tsk)
+				// Do not combine Synchronization with Event: group compaction would drop the Synchronization
+				// context, a retry of the task is then not a Synchronization and never unlocks its monitors.
+				if isSynchronization && !next.IsSynchronization() {
+					return true
+				}
 				// Do not combine with a Synchronization that should not be executed ("executeHookOnSynchronization: false").
 				if next.IsSynchronization() && !next.ExecuteOnSynchronization {
 					return true
